@@ -31,6 +31,14 @@ fn dot64(a: &[f32], b: &[f32]) -> f64 {
     a.iter().zip(b).map(|(x, y)| *x as f64 * *y as f64).sum()
 }
 
+/// exact bits, `.`-separated (identifies a stored query embedding)
+pub fn bits_dot(v: &[f32]) -> String {
+    if v.is_empty() {
+        return "-".into();
+    }
+    v.iter().map(|x| x.to_bits().to_string()).collect::<Vec<_>>().join(".")
+}
+
 pub fn cos64(a: &[f32], b: &[f32]) -> f64 {
     if a.len() != b.len() {
         return 0.0;
@@ -122,6 +130,7 @@ pub fn step(w: &mut Option<World>, line: &str) -> (String, String) {
                 w.pool.push((scope, q.clone()));
             }
             let qh = quantise(&q);
+            let qb = bits_dot(&q);
             let (gen_s, ok) = match g {
                 "-" => {
                     let _ = w.qc.insert_with_k_scoped(scope, q, res.clone(), k as usize);
@@ -149,9 +158,10 @@ pub fn step(w: &mut Option<World>, line: &str) -> (String, String) {
             };
             (
                 format!(
-                    "store scope={} qh={} k={} res={} gen={}",
+                    "store scope={} qh={} qb={} k={} res={} gen={}",
                     scope,
                     qh,
+                    qb,
                     k,
                     show_res(&res),
                     gen_s
@@ -170,7 +180,7 @@ pub fn step(w: &mut Option<World>, line: &str) -> (String, String) {
                 .pool
                 .iter()
                 .filter(|(s, _)| *s == scope)
-                .map(|(_, v)| (cos64(&q, v), quantise(v)))
+                .map(|(_, v)| (cos64(&q, v), bits_dot(v)))
                 .collect();
             sims.sort_by(|a, b| b.0.partial_cmp(&a.0).unwrap_or(std::cmp::Ordering::Equal));
             let mut amb = false;
@@ -223,7 +233,7 @@ pub fn step(w: &mut Option<World>, line: &str) -> (String, String) {
                     } else {
                         ((dist64(q, &v, m) as f32).to_bits()).to_string()
                     };
-                    format!("{};{};{}", s, quantise(q), d)
+                    format!("{};{};{}", s, bits_dot(q), d)
                 })
                 .collect();
             let n = w.qc.invalidate_for_insert(&v, m);
